@@ -278,7 +278,7 @@ func oversizedHashRule(P *Program, R *Report) {
 		// bound must be Lm of the key in use: symbol "Lm", or a parameter that every caller binds to Params.Lm
 		good := s.bound == "Lm"
 		detail := "bound=" + s.bound + " subject=" + s.subj
-		if !good && strings.HasPrefix(s.bound, "arg#") {
+		if !good && matches(`^arg#\d+$`)(s.bound) {
 			good, detail = callersPassLm(P, s.fn, s.bound)
 		}
 		R.decide("C01.f", key+":guard", what, good, detail, P.Pos(s.call.Pos()))
